@@ -6,6 +6,7 @@ mutator and must hold again at every normal exit (E1 / G1)."""
 from collections import namedtuple
 
 from core import Origin, strip_generics, type_head
+from roles import split_generic_args
 from rules_build import ancestors
 from rules_protocol import guard_edges_on_call
 
@@ -85,6 +86,10 @@ def resolve_graph(ctx):
             g['edge_data_ty'] = ty
         elif h == 'std::cell::Cell':
             g['scratch'] = f['name']
+            # the fields of the scratch struct held in the cell (all of them must be cleared before reuse)
+            inner = split_generic_args(ty)
+            sa = F.adts.get(type_head(inner[0])) if inner else None
+            g['scratch_fields'] = {x['name'] for x in sa['variants'][0]['fields']} if sa and sa['kind'] == 'struct' else set()
         elif ty in ('u32', 'u64', 'usize', 'pie_graph::TopoOrder'):
             g['last_rank'] = f['name']
     nr = F.adts.get(g.get('noderec') or '')
@@ -127,6 +132,22 @@ def resolve_graph(ctx):
 AdjOp = namedtuple('AdjOp', 'enc op node key call')
 
 
+def _is_node_accessor(F, call, g):
+    """a local helper `fn(&self, key) -> &NodeRecord` whose result is node_info[key] / node_info.get(key).unwrap() (today: get_node)"""
+    cb = F.callee_body(call)
+    if cb is None or cb.crate != 'pie_graph' or cb.argc != 2:
+        return False
+    cache = F.__dict__.setdefault('_node_acc', {})
+    if cb.id not in cache:
+        ok = False
+        for c in cb.calls.values():
+            if c.name in ('index', 'get', 'get_unchecked') and len(c.args) >= 2 and any(('f', g['node_info']) in x.path and x.kind == 'arg' and x.key == 1 for x in cb.orig_operand(c.args[0])) \
+                    and all(x.kind == 'arg' and x.key == 2 for x in cb.orig_operand(c.args[1])) and any(x.kind == 'call' and x.key == c.bb for x in cb.orig_local(0)):
+                ok = True
+        cache[cb.id] = ok and g.get('noderec', '') in cb.local_ty(0)
+    return cache[cb.id]
+
+
 def _slot_key_of(body, origins, g):
     """For origins like call(index/get/get_mut on node_info).<field>: the origins of the slot-map key."""
     out = set()
@@ -136,7 +157,7 @@ def _slot_key_of(body, origins, g):
             if c.name in ('index', 'index_mut', 'get', 'get_mut', 'remove', 'get_unchecked', 'get_unchecked_mut') and len(c.args) >= 2 and \
                     any(('f', g['node_info']) in x.path for x in body.orig_operand(c.args[0])):
                 out |= set(body.orig_operand(c.args[1]))
-            elif c.name == 'get_node' and len(c.args) >= 2:
+            elif len(c.args) >= 2 and _is_node_accessor(body.facts, c, g):
                 out |= set(body.orig_operand(c.args[1]))
             else:
                 out.add(o)
@@ -636,6 +657,23 @@ def rule_graph_getters(ctx):
 # E5 scratch space, E6 check-then-mark, reachability query shape
 # ------------------------------------------------------------------------------------------------
 
+def _through_field(body, operand):
+    """the operand is (a reference to) a field of some struct reached from a parameter / taken value - not a plain local"""
+    return any(any(isinstance(p, tuple) and p[0] == 'f' for p in o.path) for o in body.orig_operand(operand))
+
+
+def _recv_head(body, call):
+    a = call.args[0]
+    if a[0] not in ('c', 'm'):
+        return ''
+    t = body.local_ty(a[1][0])
+    while t.startswith('&'):
+        t = t[1:].lstrip()
+        if t.startswith('mut '):
+            t = t[4:]
+    return type_head(t)
+
+
 def rule_graph_search(ctx):
     R, F = ctx.R, ctx.F
     g = getattr(ctx, 'g', None) or resolve_graph(ctx)
@@ -654,21 +692,33 @@ def rule_graph_search(ctx):
             n_take += 1
             tinf = ctx.infeasible(tb)
             uses = [c for c in tb.calls.values() if not tb.blocks[c.bb]['cleanup'] and any(a[0] in ('c', 'm') and t.bb in ctx.base_call_bbs(tb.orig_operand(a)) for a in c.args)]
-            clears = [c for c in uses if c.name == 'clear']
-            full = set()
-            for c in clears:
+            def _clears_fields(c):
+                """fields of the scratch value that call `c` empties: a std `clear` on a field, or a local helper (of any name) whose
+                body clears fields of its receiver on every path"""
                 cb = F.callee_body(c)
                 if cb is None:
-                    full |= {p[1] for o in tb.orig_operand(c.args[0]) for p in o.path if isinstance(p, tuple)}
-                else:
-                    full |= {p[1] for x in cb.calls.values() if x.name == 'clear' for o in cb.orig_operand(x.args[0]) for p in o.path if isinstance(p, tuple)}
-            others = [c for c in uses if c.name != 'clear' and c.qname not in ('std::cell::Cell::set', 'std::mem::drop')]
+                    return {p[1] for o in tb.orig_operand(c.args[0]) for p in o.path if isinstance(p, tuple)} if c.name == 'clear' else None
+                fs = set()
+                for x in cb.calls.values():
+                    if x.name != 'clear' or F.callee_body(x) is not None or cb.blocks[x.bb]['cleanup'] or not x.args:
+                        continue
+                    seen = cb.reach([0], avoid=lambda n, bb=x.bb: n == bb)
+                    if any(r in seen for r in cb.returns()):
+                        continue  # not on every path
+                    fs |= {p[1] for o in cb.orig_operand(x.args[0]) if o.kind == 'arg' and o.key == 1 for p in o.path if isinstance(p, tuple)}
+                return fs or None
+            clear_map = {c.bb: _clears_fields(c) for c in uses}
+            clears = [c for c in uses if clear_map[c.bb]]
+            full = set()
+            for c in clears:
+                full |= clear_map[c.bb]
+            others = [c for c in uses if not clear_map[c.bb] and c.qname not in ('std::cell::Cell::set', 'std::mem::drop')]
             used_fields = {p[1] for c in others for a in c.args if a[0] in ('c', 'm') for o in tb.orig_operand(a) if o.kind == 'call' and o.key == t.bb for p in o.path if isinstance(p, tuple)}
             bad = None
             for u in others:
                 if tb.must_before(u.bb, ctx.both(tinf, lambda n: n in {c.bb for c in clears})) is not None:
                     bad = u
-            good = bool(clears) and bad is None and (used_fields <= full or {'stack', 'visited'} <= full)
+            good = bool(clears) and bad is None and (used_fields <= full or (g.get('scratch_fields') and g['scratch_fields'] <= full))
             R.ob('E5-scratch', tb.path, good, 'the reused scratch space is cleared (every part that is used: %s) before its first use' % sorted(used_fields) if good
                  else 'the reused scratch space is used (%s) before it is cleared, or a used part (%s) is never cleared: stale entries from the previous query change answers'
                  % (bad.qname if bad else 'n/a', sorted(used_fields - full)), ctx.where(tb, t.bb), props=('C11', 'C05', 'C07', 'C10'))
@@ -704,8 +754,8 @@ def rule_graph_search(ctx):
     for body in graph_bodies(ctx):
         if body.name not in ('contains_transitive_edge', 'next'):
             continue
-        chk = [c for c in body.find_calls(lambda c: c.name == 'contains' and any(('f', 'visited') in o.path for o in body.orig_operand(c.args[0])))]
-        mark = [c for c in body.find_calls(lambda c: c.name == 'insert' and any(('f', 'visited') in o.path for o in body.orig_operand(c.args[0])))]
+        chk = [c for c in body.find_calls(lambda c: c.qname == 'std::collections::HashSet::contains' and _through_field(body, c.args[0]))]
+        mark = [c for c in body.find_calls(lambda c: c.qname == 'std::collections::HashSet::insert' and _through_field(body, c.args[0]))]
         if not chk and not mark:
             continue
         n += 1
@@ -721,7 +771,7 @@ def rule_graph_search(ctx):
         # expansion / yield sites
         sites = []
         for c in body.calls.values():
-            if c.name in ('extend', 'push') and any(('f', x) in o.path for o in body.orig_operand(c.args[0]) for x in ('stack', 'queue')) and not body.blocks[c.bb]['cleanup']:
+            if c.name in ('extend', 'push') and c.args and _through_field(body, c.args[0]) and _recv_head(body, c) in ('std::vec::Vec', 'std::collections::BinaryHeap') and not body.blocks[c.bb]['cleanup']:
                 sites.append(c.bb)
         for d in body.defs.get(0, []):
             if d[0] == 'stmt' and d[3]['k'] == 'aggr' and d[3]['ak'].get('variant') == 'Some':
@@ -790,6 +840,16 @@ def rule_graph_search(ctx):
 # G3 / G4: who may write ranks, counter pairing, permutation
 # ------------------------------------------------------------------------------------------------
 
+def _closure_of(body, F, operand):
+    """the closure body an operand holds (a closure aggregate built in `body`), or None"""
+    for o in body.orig_operand(operand):
+        if o.kind == 'aggr':
+            cid = body.blocks[o.key[0]]['stmts'][o.key[1]]['rv']['ak'].get('closure')
+            if cid in F.bodies:
+                return F.bodies[cid]
+    return None
+
+
 def rule_graph_rank(ctx):
     R, F = ctx.R, ctx.F
     g = getattr(ctx, 'g', None) or resolve_graph(ctx)
@@ -814,7 +874,9 @@ def rule_graph_rank(ctx):
         is_reorder = b.name not in MUTATORS and not b.path.startswith(G + 'get_') and any(c.qname.startswith('core::slice::sort') for c in b.calls.values())
         if is_reorder:
             reorder = b
-        good = p == G + 'remove_node' or is_reorder
+        # a closure handed to an iterator adaptor inside node removal / the reordering step belongs to it
+        owner = F.bodies.get(b.root) if getattr(b, 'root', None) else None
+        good = p == G + 'remove_node' or is_reorder or (b.kind == 'Closure' and owner is not None and owner.path == G + 'remove_node')
         R.ob('G3-who-writes-rank', p, good, 'ranks are written only by node removal (compaction) and by the reordering step' if good else '%s writes topological ranks' % p, ctx.where(b, ws[0][1]), props=('C10',))
     R.floor('G3', 'rank writers', len(writers), 2, props=('C10',))
     for p, ws in lastw.items():
@@ -871,7 +933,20 @@ def rule_graph_rank(ctx):
                     srv = b.blocks[o.key[0]]['stmts'][o.key[1]]['rv']
                     if srv['k'] == 'bin' and srv['bop'].startswith('Sub') and srv['b'].get('k', {}).get('int') == '1':
                         dec.add(bb)
-        good = bool(rm) and bool(dec) and rn.must_after(rm[0].bb, ctx.both(inf, lambda n: n in dec)) is None
+        # "a node was removed" = after the removal call, or - when its Option result is tested - on the Some edge only
+        removed_from = []
+        if rm:
+            some_e = [nd for nd, gd in guard_edges_on_call(rn, rm[0]) if gd.variants() == frozenset(['Some'])]
+            none_e = [nd for nd, gd in guard_edges_on_call(rn, rm[0]) if gd.variants() == frozenset(['None'])]
+            removed_from = some_e if some_e and none_e else [rm[0].bb]
+
+        def after_removal_all_paths_meet(blocks_):
+            for st in removed_from:
+                seen_ = rn.reach([st] if isinstance(st, tuple) else rn.xsucc(st), avoid=ctx.both(inf, lambda n: n in blocks_))
+                if any(r in seen_ for r in rn.returns()):
+                    return False
+            return bool(removed_from)
+        good = bool(rm) and bool(dec) and after_removal_all_paths_meet(dec)
         R.ob('G3-remove-node-counter', rn.path, good, 'removing a node decrements the rank counter on every path that removed it' if good else 'the rank counter is not decremented when a node is removed',
              ctx.where(rn), props=('C10',))
         # compaction: rank > removed rank  =>  rank -= 1
@@ -903,6 +978,42 @@ def rule_graph_rank(ctx):
                                   (opn in ('Le', 'Lt') and removed_r and t is False) or (opn in ('Ge', 'Gt') and removed_l and t is False)
                         if greater:
                             comp = True
+        # ... and that scan over all remaining nodes is started on every path that removed a node (no skipped compaction)
+        scans = {c.bb for c in rn.find_calls(lambda c: c.name in ('values_mut', 'iter_mut') and any(('f', g['node_info']) in o.path for o in rn.orig_operand(c.args[0])))}
+        # the same compaction written as `values_mut().filter(|o| o.rank > removed).for_each(|o| o.rank -= 1)`
+        if not comp and rm:
+            for fe in rn.find_calls(lambda c: c.qname == 'std::iter::Iterator::for_each' and len(c.args) >= 2):
+                wcl = _closure_of(rn, F, fe.args[1])
+                if wcl is None or wcl.path not in writers:
+                    continue
+                decs = False
+                for (wb, bb, si, rv) in writers[wcl.path]:
+                    for o in (wb.orig_operand(F.operand(rv['op'])) if rv['k'] == 'use' else frozenset()):
+                        if o.kind == 'op':
+                            srv = wb.blocks[o.key[0]]['stmts'][o.key[1]]['rv']
+                            if srv['k'] == 'bin' and srv['bop'].startswith('Sub') and srv['b'].get('k', {}).get('int') == '1':
+                                decs = True
+                flt = [rn.calls[o.key] for o in rn.orig_operand(fe.args[0]) if o.kind == 'call' and o.key in rn.calls and rn.calls[o.key].qname == 'std::iter::Iterator::filter']
+                if not decs or len(flt) != 1:
+                    continue
+                fcl = _closure_of(rn, F, flt[0].args[1])
+                if fcl is None:
+                    continue
+                for d in fcl.defs.get(0, []):
+                    if d[0] == 'stmt' and d[3]['k'] == 'bin':
+                        l_ = fcl.orig_operand(F.operand(d[3]['a']))
+                        r_ = fcl.orig_operand(F.operand(d[3]['b']))
+                        item_l = bool(l_) and all(x.kind == 'arg' and x.key == 2 and ('f', rank) in x.path for x in l_)
+                        item_r = bool(r_) and all(x.kind == 'arg' and x.key == 2 and ('f', rank) in x.path for x in r_)
+                        cap_l = bool(l_) and all(x.kind == 'arg' and x.key == 1 for x in l_)
+                        cap_r = bool(r_) and all(x.kind == 'arg' and x.key == 1 for x in r_)
+                        # the captured value must be the removed node's rank
+                        cap_ok = any(rm[0].bb in ctx.base_call_bbs(rn.orig_operand(F.operand(x))) and any(('f', rank) in o.path for o in rn.orig_operand(F.operand(x)))
+                                     for o2 in rn.orig_operand(flt[0].args[1]) if o2.kind == 'aggr' for x in rn.blocks[o2.key[0]]['stmts'][o2.key[1]]['rv']['ops'])
+                        if cap_ok and ((d[3]['bop'] == 'Gt' and item_l and cap_r) or (d[3]['bop'] == 'Lt' and cap_l and item_r)) and len(fcl.defs.get(0, [])) == 1:
+                            comp = True
+        if comp and rm and (not scans or not after_removal_all_paths_meet(scans)):
+            comp = False
         R.ob('G3-compaction', rn.path, comp, 'after a removal every rank greater than the removed one is decremented (ranks stay gap-free)' if comp
              else 'rank compaction after a removal is missing or compares the wrong way round', ctx.where(rn), props=('C10',))
     if reorder is None:
